@@ -31,7 +31,7 @@ m = dict(
     hooks=dict(
         guard="SQFVM_RUNTIME_VERIF",
         enable="-DSQFVM_RUNTIME_VERIF is added by /verif/runner/CMakeLists.txt (target core, PUBLIC definition) for every flavour built under /verif/build",
-        baseline_off_cmd="cmake --build /repo/_build && ctest --test-dir /repo/_build -j8 --timeout 900",
+        baseline_off_cmd="cmake -S /repo -B /repo/_build >/dev/null && cmake --build /repo/_build && ctest --test-dir /repo/_build -j8 --timeout 900",
         source_commits=[l.strip() for l in open(os.path.join(VERIF, "tools", "hook_commits.txt")) if l.strip()],
         add_only=True,
     ),
